@@ -7,6 +7,7 @@
 //verif:cover VerifC14DeleteIff deleted kept
 //verif:cover VerifC14ScanBlob multi-page
 //verif:cover VerifC14Lock forced second-refused
+//verif:cover VerifC14LockRace interleaved
 package core
 
 import (
@@ -236,4 +237,45 @@ func VerifC14Lock() {
 	}
 	vAssert(PurgeUnlock(stores, WithPurgeLogger(zap.NewNop())) == nil, "unlock")
 	vAssert(PurgeLock(stores, WithPurgeLogger(zap.NewNop())) == nil, "lock-after-unlock")
+}
+
+// VerifC14LockRace: two purge jobs taking the lock concurrently, every interleaving at store-call
+// granularity: without force at most one acquires it (exactly one when it was free), and PurgeUnlock releases it.
+func VerifC14LockRace() {
+	meta := newVStore("meta")
+	stores := vCtxStores(meta)
+	held := vChoose("alreadyHeld", 2) == 1
+	if held {
+		vAssert(PurgeLock(stores, WithPurgeLogger(zap.NewNop())) == nil, "initial-lock")
+	}
+	switched := 0
+	meta.sched = func() {
+		if vChoose("switch", 2) == 1 {
+			switched++
+			vYield()
+		}
+	}
+	errs := make([]error, 2)
+	job := func(k int) func() {
+		return func() { errs[k] = PurgeLock(stores, WithPurgeLogger(zap.NewNop())) }
+	}
+	vTasks(job(0), job(1))
+	meta.sched = nil
+	if switched > 0 {
+		vCover("interleaved")
+	}
+	got := 0
+	for _, e := range errs {
+		if e == nil {
+			got++
+		}
+	}
+	if held {
+		vAssert(got == 0, "held-lock-is-not-acquired-again")
+	} else {
+		vAssert(got == 1, "exactly-one-job-acquires-the-free-lock")
+	}
+	vAssert(PurgeUnlock(stores, WithPurgeLogger(zap.NewNop())) == nil, "unlock")
+	_, still := meta.data[model.PurgeLock()]
+	vAssert(!still, "unlock-releases-the-lock")
 }
